@@ -362,8 +362,10 @@ func (vfs *OrefaFS) Link(oldname, newname string) error {
 	oChild.mu.Lock()
 	defer oChild.mu.Unlock()
 
-	nParent.mu.Lock()
-	defer nParent.mu.Unlock()
+	if nParent != oChild {
+		nParent.mu.Lock()
+		defer nParent.mu.Unlock()
+	}
 
 	if !nParent.mode.IsDir() {
 		return &os.LinkError{Op: op, Old: oldname, New: newname, Err: vfs.err.NotADirectory}
